@@ -73,6 +73,7 @@ class Rec:
 
 
 REC = Rec()
+ZLIB_CALLS = []      # (input, zlib.compress output, extra args?) of every intercepted call: contract validation in c08
 _installed = False
 
 
@@ -488,16 +489,29 @@ def install():
 
     # ---- zip, header check, randomness ----------------------------------------------
     Z = jwe_zips.DeflateZipModel
-    oc, od = Z.compress, Z.decompress
+    od = Z.decompress
+    import zlib as real_zlib
 
-    def compress(self, s):
-        try:
-            out = oc(self, s)
-        except Exception as e:
-            REC.add("deflate", [bytes(s)], err(e))
-            raise
-        REC.add("deflate", [bytes(s)], ok(out))
-        return out
+    class ZlibProxy:
+        """jwe_zips.zlib: zlib.compress is the primitive of DeflateZipModel.compress (the model strips the 2-octet
+        header and the Adler-32 itself); everything else is passed through unlogged, so a compressor reached another
+        way is an oracle miss in the model"""
+        def __getattr__(self, name):
+            return getattr(real_zlib, name)
+
+        def compress(self, s, *a, **kw):
+            args = [bytes(s)]          # a compression level is not part of the framing: same primitive
+            try:
+                out = real_zlib.compress(s, *a, **kw)
+            except Exception as e:
+                REC.add("deflate", args, err(e))
+                raise
+            REC.add("deflate", args, ok(out))
+            if len(ZLIB_CALLS) < 5000:
+                ZLIB_CALLS.append((bytes(s), out, bool(a or kw)))
+            return out
+
+    jwe_zips.zlib = ZlibProxy()
 
     def decompress(self, s):
         try:
@@ -508,7 +522,7 @@ def install():
         REC.add("inflate", [bytes(s)], ok(out))
         return out
 
-    Z.compress, Z.decompress = compress, decompress
+    Z.decompress = decompress
 
     och = JWERegistry.check_header
 
